@@ -234,6 +234,68 @@ def manager_rule(rep, f):
     rep.floor("C18.b", n, 180)
 
 
+ADDERS = ("addElement", "put", "push", "setElementAt", "insertElementAt", "enqueue", "reset")
+
+
+def container_manager_rule(rep, f):
+    rep.rule("C18.c", "one manager per container (contradiction rule, per function): all objects that a function allocates directly in "
+             "the argument of an add/put/push/reset on the same container or janitor variable (XMLString::replicate(s, M), "
+             "new (M) T) use the same manager expression M — including the container object itself when it is created there. The "
+             "container releases every element through its own manager, so an element taken from another manager is returned to "
+             "the wrong one (with a separate grammar-pool manager: a leak in the parser's manager and a foreign deallocate in the "
+             "pool's)")
+    import json as _json
+    groups = {}
+    for x in f.kind("call"):
+        c = x["x"]
+        if c[1].split("::")[-1] not in ADDERS or not c[2]:
+            continue
+        r = c[2]
+        while r and r[0] in ("c", "cast", "u"):
+            if r[0] == "c" and r[1].split("::")[-1] in ("get", "operator->", "operator*"):
+                r = r[2]
+            elif r[0] == "cast":
+                r = r[2]
+            elif r[0] == "u" and r[1] == "*":
+                r = r[2]
+            else:
+                break
+        if not r or r[0] not in ("l", "f"):
+            continue
+        for a in c[3]:
+            top = a
+            while top and top[0] == "cast":
+                top = top[2]
+            m = None
+            if top and top[0] == "c" and top[1] == "XMLString::replicate" and len(top[3]) >= 2:
+                m = top[3][-1]
+            elif top and top[0] == "n" and top[2]:
+                m = top[2]
+            if m is None:
+                continue
+            while isinstance(m, list) and len(m) == 1 and isinstance(m[0], list):
+                m = m[0]
+            if m and m[0] == "p":
+                m = ["p", 0, m[2]]       # parameters by name (two overloads may number them differently)
+            key = (x["_fn"]["q"], x["_fn"].get("sig", ""), _json.dumps(r))
+            groups.setdefault(key, {}).setdefault(_json.dumps(m), []).append((x.get("l"), x["_fn"]["file"]))
+    n = 0
+    for (q, sig, r), ms in sorted(groups.items()):
+        n += 1
+        ok = len(ms) == 1
+        var = sx_str(_json.loads(r))
+        if ok:
+            rep.ob("C18.c", "%s/%s" % (q, var), True, "%d allocation(s), all from %s" % (sum(len(v) for v in ms.values()), sx_str(_json.loads(list(ms)[0]))), list(ms.values())[0][0][1])
+        else:
+            minority = min(ms.items(), key=lambda kv: len(kv[1]))
+            rep.ob("C18.c", "%s/%s" % (q, var), False,
+                   "%s: objects added to %s are allocated from different managers: %s — the one at line %s uses %s while the others use %s" % (
+                       q, var, {sx_str(_json.loads(k)): [l for l, _ in v] for k, v in ms.items()}, minority[1][0][0],
+                       sx_str(_json.loads(minority[0])), ", ".join(sx_str(_json.loads(k)) for k in ms if k != minority[0])),
+                   "%s:%s" % (minority[1][0][1], minority[1][0][0]))
+    rep.floor("C18.c", n, 20)
+
+
 def run(rep):
     f = core.library_facts()
     rep.units.update(os.path.relpath(t, core.REPO) for t in f.tus)
@@ -242,6 +304,7 @@ def run(rep):
     statics_rule(rep, f, I)
     counter_rule(rep, f)
     manager_rule(rep, f)
+    container_manager_rule(rep, f)
     rep.undecided += ["exactly-once release on every dynamic path (error unwinding with partially built objects)",
                       "leak freedom per document and per way a parse can end",
                       "ownership carried by adoption flags of the container templates (e.g. RefStackOf adoptElems)"]
